@@ -861,14 +861,14 @@ class Gen:
 
 def fuzzy_anchor(body_text, lit):
     """offset of the single line of body_text whose stripped text shares a long prefix with the (stripped) anchor
-    literal - at least its statement head (up to the first '=' or '(' inclusive) and at least 60% of it; None when
-    there is no such line or more than one"""
+    literal - at least its statement head (up to the first '=' or '(' inclusive); None when there is no such line or more
+    than one"""
     want = lit.strip()
     if len(want) < 8:
         return None
     m = re.search(r'[=(]', want)
     head = len(want[:m.end()]) if m else len(want.split(' ')[0])
-    need = max(head, int(0.6 * len(want)), 6)
+    need = max(head, 6)
     cands = []
     off = 0
     for line in body_text.split('\n'):
